@@ -289,7 +289,9 @@ func LiveMPD(a *asset, mpdName string, cfg *ResponseConfig, drmCfg *drm.DrmConfi
 			if err != nil {
 				return nil, fmt.Errorf("adjustASForSegmentNumber: %w", err)
 			}
-			mpd.PublishTime = mpd.AvailabilityStartTime
+			if cfg.liveMPDType() == segmentNumber { // Not for thumbnails inside a SegmentTimeline MPD
+				mpd.PublishTime = mpd.AvailabilityStartTime
+			}
 		default:
 			return nil, fmt.Errorf("unknown mpd type")
 		}
